@@ -55,7 +55,7 @@ def env_rules(ctx, m, owners, submissions=True):
                           "place_order appends the new order record (visible immediately with status New)")
         # cached snapshot
         adt = "bourse_de::env::Env" if owner == "Env" else "bourse_de::market_env::MarketEnv"
-        snap = [x["name"] for x in ctx.prog.adt_fields(adt) if "Level2Data<" in x["ty"] and "Records" not in x["ty"]]
+        snap = [n for n, t in m.deep_fields(adt).items() if "Level2Data<" in t and "Records" not in t]
         if len(snap) != 1:
             ctx.lost("snapshot", "%s cached level-2 snapshot field (found %s)" % (owner, snap))
             continue
@@ -63,10 +63,10 @@ def env_rules(ctx, m, owners, submissions=True):
         # who may write the snapshot: judged on the public functions (their effect summaries are
         # transitive, so private helpers are accounted to the public function that uses them)
         pubs = [f for f in ctx.prog.find(crate="bourse_de", adt=owner) if f.impl_trait is None and f.pub]
-        writing = [f.name for f in pubs if any(w[0] == 1 and w[1][:1] == (sf,) for w in E.summary(f)["writes"])]
+        writing = [f.name for f in pubs if any(w[0] == 1 and sf in w[1] for w in E.summary(f)["writes"])]
         ctx.check(writing == ["step"], "snapshot", owner + "|writers", ctx.loc(getter("step")), "among the public functions only step (and the constructor) assigns the cached snapshot",
                   "cached snapshot may be written by %s" % writing)
-        writers = [(step.f, w) for w in step.q.writes() if w.root == ("param", 1, "self") and w.names[:1] == [sf]]
+        writers = [(step.f, w) for w in step.q.writes() if w.root == ("param", 1, "self") and sf in w.names]
         ctx.check(len(writers) == 1, "snapshot", owner + "|single-assignment", writers[0][1].loc() if writers else ctx.loc(step.f), "step assigns the snapshot exactly once",
                   "step assigns the snapshot %d times" % len(writers))
         for f, w in writers:
@@ -77,7 +77,7 @@ def env_rules(ctx, m, owners, submissions=True):
             ctx.check(ok, "snapshot", owner + "|source", w.loc(), "step refreshes the snapshot from self.%s.level_2_data()" % obj, "snapshot refreshed from %s" % render(v))
             # unconditional: the only condition allowed on the refresh is "the processing loop has finished"
             extra = [a for a in w.guards if not (a[0] == "variant" and a[2] == ("None",) and a[1][0] == "call" and a[1][4] == "next")]
-            whole = w.names == [sf]
+            whole = w.names[-1:] == [sf]
             ctx.check(not extra and whole and not step.q.cfg.in_loop(w.b), "snapshot", owner + "|unconditional", w.loc(),
                       "the whole snapshot is refreshed on every step, unconditionally",
                       "the snapshot refresh is conditional / partial: [%s] %s" % (w.gtext(), w.text()[:80]))
@@ -86,17 +86,21 @@ def env_rules(ctx, m, owners, submissions=True):
             ctx.check(after_loop and all(step.q.body.dominates(c.b, w.b) for c in last_set) and bool(last_set), "snapshot", owner + "|after-step", w.loc(),
                       "the refresh happens after the processing loop and the final clock write", "the snapshot is refreshed before the step's processing is complete")
         new = getter("new")
-        r = m.q(new).ret()
+        r = m.qi(new).ret()       # (a private struct grouping the recorded data may be built by its own private constructor)
         agg = [x for x in walk(r) if x[0] == "agg" and x[1] == "adt" and x[2].endswith(owner + "::" + owner)]
         ok = False
         if agg:
             fields = dict(zip(agg[0][4], agg[0][3]))
             v = fields.get(sf)
+            if v is None:
+                for inner in agg[0][3]:
+                    if inner[0] == "agg" and inner[1] == "adt" and sf in inner[4]:
+                        v = dict(zip(inner[4], inner[3]))[sf]
             ok = v is not None and v[0] == "call" and v[4] == "level_2_data" and same_obj(v[2][0], fields.get(obj))
         ctx.check(ok, "snapshot", owner + "|new", ctx.loc(new), "new() initialises the snapshot from the fresh book/market's level_2_data()",
                   "new() initialises the snapshot differently")
         g = getter("level_2_data")
-        ctx.check(fld(m.q(g).ret(), sf), "snapshot", owner + "|getter", ctx.loc(g), "level_2_data() returns the cached snapshot field", "level_2_data() returns %s" % render(m.q(g).ret()))
+        ctx.check(fld(m.qi(g).ret(), sf), "snapshot", owner + "|getter", ctx.loc(g), "level_2_data() returns the cached snapshot field", "level_2_data() returns %s" % render(m.q(g).ret()))
         # no &mut out
         for f in ctx.prog.find(crate="bourse_de", adt=owner):
             if f.pub and f.impl_trait is None and "->" in f.sig:
